@@ -10,8 +10,9 @@
                                              computed by the harness with crypto/sha1 + encoding/base64
      send  dir m                             logged BEFORE the message is handed to SendData / Push / the raw encoder
      recv  dir m [raw]                       logged AFTER ReadData / Recv / the raw decoder returned the message
-     frame dir hdr [key]                     raw header bytes: of a frame the harness's own client wrote (dir c2s, after
-                                             its send) or read from the server (dir s2c, before its recv)
+     frame dir hdr [key]                     raw header bytes: of a frame the harness's own encoder wrote (with key, << >> =
+                                             unmasked; after its send) or its decoder read from the code under test
+                                             (no key; before its recv)
      done  timeout                           every expected message arrived (timeout=FALSE) or a deadline expired
      note                                    diagnostics, ignored
 
@@ -33,18 +34,19 @@ Upg == /\ IsEvent("upg") /\ ~up
 TSend == /\ IsEvent("send") /\ up /\ Ev.dir \in Dirs
          /\ sent' = [ sent EXCEPT ![Ev.dir] = Append(@, Ev.m) ]
          /\ UNCHANGED << chan, rcvd, fr, up >>
-\* a frame the harness's own client wrote: exactly the independent encoder's header (sanity of the harness)
-FrameOut == /\ IsEvent("frame") /\ Ev.dir = "c2s"
-            /\ fr["c2s"] = Len(sent["c2s"]) - 1
-            /\ Ev.hdr = IndepHeader(sent["c2s"][Len(sent["c2s"])].n, Ev.key)
-            /\ fr' = [ fr EXCEPT !["c2s"] = @ + 1 ]
+\* a frame the harness's own encoder wrote (raw client: dir c2s, raw server: dir s2c; the event carries the key,
+\* << >> for an unmasked frame): exactly the independent encoder's header for the message just sent (sanity of the harness)
+FrameOut == /\ IsEvent("frame") /\ Has(Ev, "key") /\ Ev.dir \in Dirs
+            /\ fr[Ev.dir] = Len(sent[Ev.dir]) - 1
+            /\ Ev.hdr = IndepHeader(sent[Ev.dir][Len(sent[Ev.dir])].n, Ev.key)
+            /\ fr' = [ fr EXCEPT ![Ev.dir] = @ + 1 ]
             /\ UNCHANGED << vars, up >>
-\* a frame read from the server: a text frame whose header announces, in the minimal form, the length of the
-\* message it carries (the next unreceived message of that direction)
-FrameIn == /\ IsEvent("frame") /\ Ev.dir = "s2c"
-           /\ fr["s2c"] = Len(rcvd["s2c"]) /\ Len(rcvd["s2c"]) < Len(sent["s2c"])
-           /\ TextHeaderFor(Ev.hdr, sent["s2c"][Len(rcvd["s2c"]) + 1].n)
-           /\ fr' = [ fr EXCEPT !["s2c"] = @ + 1 ]
+\* a frame the harness's own decoder read from the code under test: a text frame whose header announces, in the
+\* minimal form, the length of the message it carries (the next unreceived message of that direction)
+FrameIn == /\ IsEvent("frame") /\ ~Has(Ev, "key") /\ Ev.dir \in Dirs
+           /\ fr[Ev.dir] = Len(rcvd[Ev.dir]) /\ Len(rcvd[Ev.dir]) < Len(sent[Ev.dir])
+           /\ TextHeaderFor(Ev.hdr, sent[Ev.dir][Len(rcvd[Ev.dir]) + 1].n)
+           /\ fr' = [ fr EXCEPT ![Ev.dir] = @ + 1 ]
            /\ UNCHANGED << vars, up >>
 TRecv == /\ IsEvent("recv") /\ up /\ Ev.dir \in Dirs
          /\ (Has(Ev, "raw") => fr[Ev.dir] = Len(rcvd[Ev.dir]) + 1)
